@@ -104,3 +104,8 @@ def cases(tier, seed, ctx=None):
         delay = rng.choice([0, 0, 15, 40])
         pieces = rng.choice([[], [5], [len(rq) - 2, 1], [1, 1, 1], [len(rq) - 5]])
         yield ("tlsraw", [rq, ending, delay, pieces, 1], "raw-client-ending-%d" % ending)
+    # a client that sends more than its request (100..300 KB of further bytes) before the handler answers 40 ms later: the answer -
+    # a few bytes or 3 MiB - arrives whole and the connection is shut in an orderly way (no reset), TLS and plain alike
+    for j in range(4 if tier == "quick" else 24):
+        rq = (b"POST /big HTTP/1.1\r\nContent-Length: 5\r\n\r\nhello" if j % 2 else b"POST /x HTTP/1.1\r\nContent-Length: 5\r\n\r\nhello")
+        yield ("tlsraw", [rq, j % 4 // 2, 40, rng.choice([[], [7]]), 1, rng.choice([100000, 300000])], "%s-surplus-before-the-answer" % 'raw-client')
